@@ -54,6 +54,9 @@ class Dups:
                     with open(p, "wb") as fh:
                         fh.write(POOL[ci])
                 paths.append(p)
+            for p in paths:                      # same size + same mtime must not be taken for same content
+                if not os.path.islink(p):
+                    os.utime(p, (1700000000, 1700000000))
             excl = []
             if inp["exclude_last"]:
                 excl = [os.path.basename(paths[-1])]
